@@ -74,6 +74,7 @@ fn main() {
         "gen" => streams::gen::run(&o, &mut rng),
         "mock" => streams::mock::run(&o, &mut rng),
         "smmock" => streams::smmock::run(&o, &mut rng),
+        "storage" => streams::storage::run(&o, &mut rng),
         "resp" => streams::resp::run(&o, &mut rng),
         "wire-req" => streams::wire_req::run(&o, &mut rng),
         s => { eprintln!("unknown stream {}", s); std::process::exit(2); }
